@@ -1,6 +1,7 @@
 import Parmcb.Driver.Proto
 import Parmcb.Driver.Gf2
 import Parmcb.Driver.Fp
+import Parmcb.Driver.Graph
 open Parmcb.Driver
 
 def dispatch (c : Case) : String :=
@@ -8,6 +9,9 @@ def dispatch (c : Case) : String :=
   | "gf2" => handleGf2 c
   | "fp" => handleFp c
   | "fpvec" => handleFpVec c
+  | "forest" => handleForest c
+  | "fvs" => handleFvs c
+  | "exact" => handleExact c
   | k => s!"diff {c.id} unknown-kind {k}"
 
 partial def readAll (h : IO.FS.Stream) (acc : Array String) : IO (Array String) := do
